@@ -240,8 +240,8 @@ def _run_shard(ctx):
     for i in range(n):
         if ctx.out_of_time():
             break
-        kind = gens.pick(rng, ['noise', 'int', 'int', 'walk', 'tones'])
-        N = int(gens.pick(rng, [20, 50, 200, 1000]))
+        kind = gens.pick(rng, ['noise', 'int', 'int', 'walk', 'tones', 'periodic', 'palindrome', 'steps'])
+        N = int(gens.pick(rng, [20, 50, 200, 1000, 1000, 6000]))
         x = gens.signal(rng, kind, N)
         if rng.random() < .2:
             x = x * float(gens.pick(rng, [1e-9, 1e-6, 1e6, 1e9]))     # the same shape at another amplitude
